@@ -239,3 +239,101 @@ func EncodeChain(types []uint8, bodies [][]byte) ([]byte, uint8, error) {
 	}
 	return out, first, nil
 }
+
+// ---------------------------------------------------------------------------
+// SA payload (RFC 7296 §3.3): proposals, transforms, attributes. Decoder only:
+// the reference peer must be able to PARSE what the library sent, following the
+// "last substructure" markers (0 = last, 2 = more proposals, 3 = more transforms).
+// ---------------------------------------------------------------------------
+
+type SATransform struct {
+	Type    uint8
+	ID      uint16
+	HasAttr bool
+	TV      bool
+	AType   uint16
+	AValue  uint16
+	AVar    []byte
+}
+
+type SAProposal struct {
+	Num, Proto uint8
+	SPI        []byte
+	Transforms []SATransform
+}
+
+func DecodeSA(b []byte) ([]SAProposal, error) {
+	var out []SAProposal
+	for {
+		if len(b) < 8 {
+			return nil, errors.New("ref: SA: truncated proposal header")
+		}
+		last := b[0]
+		pl := int(binary.BigEndian.Uint16(b[2:]))
+		if pl < 8 || pl > len(b) {
+			return nil, fmt.Errorf("ref: SA: proposal length %d outside [8,%d]", pl, len(b))
+		}
+		p := SAProposal{Num: b[4], Proto: b[5]}
+		spi, nt := int(b[6]), int(b[7])
+		if 8+spi > pl {
+			return nil, errors.New("ref: SA: SPI exceeds proposal")
+		}
+		p.SPI = b[8 : 8+spi]
+		t := b[8+spi : pl]
+		for i := 0; i < nt; i++ {
+			if len(t) < 8 {
+				return nil, errors.New("ref: SA: truncated transform")
+			}
+			tl := int(binary.BigEndian.Uint16(t[2:]))
+			if tl < 8 || tl > len(t) {
+				return nil, fmt.Errorf("ref: SA: transform length %d outside [8,%d]", tl, len(t))
+			}
+			wantMore := byte(3)
+			if i == nt-1 {
+				wantMore = 0
+			}
+			if t[0] != wantMore {
+				return nil, fmt.Errorf("ref: SA: transform %d of %d carries last-substructure marker %d, expected %d", i+1, nt, t[0], wantMore)
+			}
+			tr := SATransform{Type: t[4], ID: binary.BigEndian.Uint16(t[6:])}
+			if tl > 8 {
+				if tl < 12 {
+					return nil, errors.New("ref: SA: attribute header truncated")
+				}
+				tr.HasAttr = true
+				ft := binary.BigEndian.Uint16(t[8:])
+				tr.TV = ft&0x8000 != 0
+				tr.AType = ft & 0x7fff
+				if tr.TV {
+					if tl != 12 {
+						return nil, errors.New("ref: SA: TV attribute with extra octets")
+					}
+					tr.AValue = binary.BigEndian.Uint16(t[10:])
+				} else {
+					al := int(binary.BigEndian.Uint16(t[10:]))
+					if 12+al != tl {
+						return nil, errors.New("ref: SA: TLV attribute length mismatch")
+					}
+					tr.AVar = t[12:tl]
+				}
+			}
+			p.Transforms = append(p.Transforms, tr)
+			t = t[tl:]
+		}
+		if len(t) != 0 {
+			return nil, errors.New("ref: SA: octets left after the announced number of transforms")
+		}
+		out = append(out, p)
+		b = b[pl:]
+		switch {
+		case last == 0 && len(b) == 0:
+			return out, nil
+		case last == 0:
+			return nil, errors.New("ref: SA: proposal marked last is followed by more octets")
+		case last != 2:
+			return nil, fmt.Errorf("ref: SA: proposal last-substructure marker %d (expected 0 or 2)", last)
+		case len(b) == 0:
+			return nil, errors.New("ref: SA: proposal marked 'more follow' is the last one")
+		}
+	}
+}
